@@ -112,23 +112,6 @@ var c27AdvJSON = []string{
 	`{}`, `[]`, `[1,2]`, `{"asset":{"x":1},"amount":{"y":2}}`, `{"asset":"COIN","amount":true}`, `[{"asset":"COIN","amount":5}]`,
 }
 
-var reDigits = regexp.MustCompile(`[0-9]+`)
-var reQuoted = regexp.MustCompile(`'[^']*'|"[^"]*"|\[[^\]]*\]|@[A-Za-z0-9_:\-]+|\$[a-z_0-9]+`)
-
-// panicClass turns a panic value into a structural class: message with literals removed.
-func panicClass(p any) string {
-	s := fmt.Sprint(p)
-	if i := strings.IndexByte(s, '\n'); i >= 0 {
-		s = s[:i]
-	}
-	s = reQuoted.ReplaceAllString(s, "_")
-	s = reDigits.ReplaceAllString(s, "N")
-	if len(s) > 90 {
-		s = s[:90]
-	}
-	return s
-}
-
 func defaultVarValue(t machine.Type) string {
 	switch t {
 	case machine.TypeAccount:
@@ -194,6 +177,11 @@ type c27Slot struct {
 	mu    sync.Mutex
 	start time.Time
 	what  string
+	// single-entry compile cache, touched by the owning worker only
+	cached    bool
+	cacheText string
+	cacheProg *program.Program
+	cacheErr  error
 }
 
 func c27() int {
@@ -275,15 +263,22 @@ func c27() int {
 		}
 		var prog *program.Program
 		var cerr error
-		func() {
-			defer func() {
-				if p := recover(); p != nil {
-					r.Violation("C27:panic:compile:"+panicClass(p), fmt.Sprintf("compiler.Compile panicked: %v | input %q", p, text), rep())
-					cerr = errors.New("panic")
-				}
+		firstOfText := !slot.cached || slot.cacheText != text
+		if firstOfText {
+			// consecutive cases of a worker share their program text: compile it once
+			func() {
+				defer func() {
+					if p := recover(); p != nil {
+						r.Violation("C27:panic:compile:"+panicSite(debug.Stack(), p), fmt.Sprintf("compiler.Compile panicked: %v | input %q", p, text), rep())
+						cerr = errors.New("panic")
+					}
+				}()
+				prog, cerr = compiler.Compile(text)
 			}()
-			prog, cerr = compiler.Compile(text)
-		}()
+			slot.cached, slot.cacheText, slot.cacheProg, slot.cacheErr = true, text, prog, cerr
+		} else {
+			prog, cerr = slot.cacheProg, slot.cacheErr
+		}
 		if cerr != nil || prog == nil {
 			if cerr == nil {
 				r.Violation("C27:compile-nil-nil", fmt.Sprintf("Compile returned neither program nor error | input %q", text), rep())
@@ -298,8 +293,9 @@ func c27() int {
 		// (1) the machine, step by step
 		res := runMachine(prog, vars, vmStore{mkStore()})
 		if res.Panic != nil {
-			r.Violation("C27:panic:"+strings.TrimPrefix(res.Stage, "panic:")+":"+panicClass(res.Panic),
-				fmt.Sprintf("machine panicked at stage %s: %v | program %q vars %v", res.Stage, res.Panic, text, vars), rep())
+			r.Violation("C27:panic:"+strings.TrimPrefix(res.Stage, "panic:")+":"+res.PanicAt,
+				fmt.Sprintf("machine panicked at stage %s in %s: %v | program %q vars %v", res.Stage, res.PanicAt, res.Panic, text, vars), rep())
+			return // the adapter runs the same code
 		} else if res.Err != nil {
 			st.ranErr.Add(1)
 			st.errKinds.Add(res.Stage + ":" + errKind(res.Err))
@@ -317,6 +313,11 @@ func c27() int {
 		if strings.Contains(text, "print") {
 			return
 		}
+		if group == "G" && res.Err == nil && !firstOfText {
+			// generated programs: the adapter is exercised on every failing input (the
+			// nil-result oracle) and on the first input of each program
+			return
+		}
 		var ares *ledgercontroller.NumscriptExecutionResult
 		var aerr error
 		panicked := false
@@ -324,7 +325,7 @@ func c27() int {
 			defer func() {
 				if p := recover(); p != nil {
 					panicked = true
-					r.Violation("C27:panic:adapter:"+panicClass(p), fmt.Sprintf("MachineNumscriptRuntimeAdapter.Execute panicked: %v | program %q vars %v", p, text, vars), rep())
+					r.Violation("C27:panic:adapter:"+panicSite(debug.Stack(), p), fmt.Sprintf("MachineNumscriptRuntimeAdapter.Execute panicked: %v | program %q vars %v", p, text, vars), rep())
 				}
 			}()
 			ares, aerr = ledgercontroller.NewMachineNumscriptRuntimeAdapter(*prog).Execute(context.Background(), mkStore(), vars)
@@ -365,13 +366,24 @@ func c27() int {
 	// ---- G: generated programs ----------------------------------------------------
 	sp := numscriptSpace(false)
 	gStages := sp.Stages
+	gDesc := "every program of the quick numscriptSpace (E1..E5)"
+	if r.Thorough() {
+		// quick E1 (all sources) + thorough E2..E5 (all destinations, variable amounts, statement pairs)
+		gStages = append([]stage{sp.Stages[0]}, numscriptSpace(true).Stages[1:5]...)
+		gDesc = "every program of quick stage E1 and thorough stages E2..E5 of numscriptSpace"
+	}
 	okG := true
 	for _, stg := range gStages {
 		stg.Progs(func(p *gen.Program) bool {
 			return submit(func(slot *c27Slot) {
 				text := p.Text()
+				rejected := false
 				forEachEnv(p, func(env *gen.Env) {
+					if rejected {
+						return
+					}
 					runCase(slot, "G", text, env.Vars, envStore(env), map[string]any{"balances": balString(env.Bal), "metadata": env.Meta})
+					rejected = slot.cacheText == text && slot.cacheErr != nil // does not compile: one case
 				})
 			})
 		})
@@ -505,7 +517,7 @@ func c27() int {
 					func() {
 						defer func() {
 							if p := recover(); p != nil {
-								r.Violation("C27:panic:vars-json:"+panicClass(p), fmt.Sprintf("decoding script vars panicked: %v | json %s", p, raw), map[string]any{"json": string(raw)})
+								r.Violation("C27:panic:vars-json:"+panicSite(debug.Stack(), p), fmt.Sprintf("decoding script vars panicked: %v | json %s", p, raw), map[string]any{"json": string(raw)})
 							}
 						}()
 						var s1 vm.ScriptV1
@@ -583,8 +595,8 @@ func c27() int {
 	cov := ev.Coverage{
 		"evaluations":         st.cases.Load(),
 		"distinct_nontrivial": st.distinctN.Load(),
-		"rule": fmt.Sprintf("G: every program of the quick numscriptSpace x every input; M: every single-token delete/duplicate/replace(by each of %d menu tokens) of %d seed programs, compiled mutants x %d uniform balances with default variable values; B: all %d-letter-alphabet byte strings of length 0..3; V: every seed x every declared variable x %d adversarial strings + %d adversarial JSON values (through vm.ScriptV1.ToCore), missing / extraneous / no variables; S: every seed x extreme balances (+-2^64, +-10^30, +-1), failing or empty store answers, missing and ill-typed metadata; distinct_nontrivial = distinct program texts that compiled AND ran to completion without error at least once",
-			len(c27TokenMenu), len(c27Seeds), len(uniforms), len(c27Alphabet), len(c27AdvStrings), len(c27AdvJSON)),
+		"rule": fmt.Sprintf("G: %s x every input (one case for a program the compiler rejects); M: every single-token delete/duplicate/replace(by each of %d menu tokens) of %d seed programs, compiled mutants x %d uniform balances with default variable values; B: all %d-letter-alphabet byte strings of length 0..3; V: every seed x every declared variable x %d adversarial strings + %d adversarial JSON values (through vm.ScriptV1.ToCore), missing / extraneous / no variables; S: every seed x extreme balances (+-2^64, +-10^30, +-1), failing or empty store answers, missing and ill-typed metadata; distinct_nontrivial = distinct program texts that compiled AND ran to completion without error at least once",
+			gDesc, len(c27TokenMenu), len(c27Seeds), len(uniforms), len(c27Alphabet), len(c27AdvStrings), len(c27AdvJSON)),
 		"samples":                       samples.List(),
 		"exhaustive":                    exhaustive.Load(),
 		"groups_fully_covered":          groupsDone,
